@@ -43,6 +43,39 @@ class Vars:
             return ("U", proj[0]["f"])
         return None
 
+    def root_key(self, op, depth=0):
+        """like key_of_operand, but also looks through named single-definition locals, references and
+        tuple construction/destructuring (let (a, b) = (&mut x, &mut y))"""
+        if op["k"] not in ("copy", "move") or depth > 30:
+            return None
+        return self._root_place(op["p"], depth)
+
+    def _root_place(self, p, depth):
+        proj = [e for e in p["proj"] if e != "deref"]
+        l = p["l"]
+        ds = self.defs.get(l, [])
+        if len(ds) == 1 and ds[0][0] == "assign" and l > self.body.argc and depth < 30:
+            r = ds[0][3]["r"]
+            if not proj:
+                if r["k"] == "use" and r["x"]["k"] in ("copy", "move"):
+                    return self._root_place(r["x"]["p"], depth + 1)
+                if r["k"] == "ref":
+                    return self._root_place(r["p"], depth + 1)
+            elif len(proj) == 1 and isinstance(proj[0], dict) and "f" in proj[0] and r["k"] == "agg" and r["agg"] == "tuple":
+                f = r["fields"][proj[0]["f"]]
+                if f["k"] in ("copy", "move"):
+                    return self._root_place(f["p"], depth + 1)
+        if len(ds) == 1 and ds[0][0] == "call" and not proj and depth < 30:
+            from .origin import TRANSPARENT_CALLS
+            t = ds[0][3]
+            if callee_name(t["f"]) in TRANSPARENT_CALLS and len(t["args"]) == 1 and t["args"][0]["k"] in ("copy", "move"):
+                return self._root_place(t["args"][0]["p"], depth + 1)
+        if not proj:
+            return ("L", l)
+        if l == 1 and self.body.kind == "closure" and len(proj) == 1 and isinstance(proj[0], dict) and "f" in proj[0]:
+            return ("U", proj[0]["f"])
+        return None
+
     def key_of_operand(self, op):
         if op["k"] in ("copy", "move"):
             return self.key_of_place(op["p"])
